@@ -436,9 +436,9 @@ def rule_event_numbers(ck):
             m, ok = bind_args(sim, c)
             e = ex.expand(m[sim.positional_params[0]])
             o = ck.ob('C06-D7.count.binary', t, m[sim.positional_params[0]], c)
-            want = N.nf('builtins.int(builtins.len(numpy.unique(numpy.nonzero(%s))))' % od)
+            want = (N.nf('builtins.int(builtins.len(numpy.unique(numpy.nonzero(%s))))' % od), N.nf('builtins.len(numpy.unique(numpy.nonzero(%s)))' % od))
             alts = [N.nf(a) for a in phi_alternatives(e) if not is_marker(a, '__top__')]
-            (o.ok('number of active cells of the observation') if alts and all(a == want for a in alts) else
+            (o.ok('number of active cells of the observation') if alts and all(a in want for a in alts) else
              o.fail('cells to simulate = %s, must be the number of active observed cells len(unique(nonzero(obs)))' % [sym.show(a)[:70] for a in alts]))
 
 
